@@ -121,9 +121,10 @@ class AbstractAst:
         #TODO How to handle sub-formulas?
         entire_spec = self.modular_spec + self.spec
         
-        if not entire_spec.endswith(';'):
-            entire_spec += ';'
-        
+        # the semicolon that ends the last assertion may be omitted; white space and comments after it do not count
+        if not self.ends_with_semicolon(entire_spec):
+            entire_spec += '\n;'
+
         input_stream = InputStream(entire_spec)
         lexer = self.antrlLexerType(input_stream)
         if not isinstance(lexer, Lexer):
@@ -143,6 +144,12 @@ class AbstractAst:
         except RecursionError:
             raise RTAMTException('The specification is nested too deeply to be parsed within the recursion limit of the interpreter')
         return
+
+    def ends_with_semicolon(self, text):
+        lexer = self.antrlLexerType(InputStream(text))
+        lexer.removeErrorListeners()
+        tokens = lexer.getAllTokens()
+        return len(tokens) > 0 and tokens[-1].text == ';'
 
     @property
     def out_var(self):
